@@ -43,7 +43,19 @@ HOSTILE = [
     ("dollar", "$", None),
     ("backslashes", "\\\\n \\\" \\", None),
     ("percent", "%s %d %(x)s {0} {}", None),
+    # well-formed for the call position, hostile inside the message text: a generated flow / intent-steps-message block
+    # whose inline utterance carries template or variable syntax (the text is LLM-made wherever it ends up)
+    ("shaped-steps-jinja", 'bot inform shaped\n  "Q7{{ 7*7 }}Q8"', "Q749Q8"),
+    ("shaped-steps-var", 'bot inform shaped two\n  "Q7$user_message Q8"', None),
+    ("shaped-steps-known-intent", 'bot answer topic 0\n  "Q7{{ 7*7 }}Q8"', "Q749Q8"),
+    ("shaped-single-call-jinja", '  ask shaped\nbot answer shaped\n  "Q7{{ 7*7 }}Q8"', "Q749Q8"),
+    ("shaped-single-call-var", '  ask shaped\nbot answer shaped two\n  "Q7$last_user_message Q8"', None),
+    ("shaped-steps-inline-jinja", 'bot inform shaped four "Q7{{ 7*7 }}Q8"', "Q749Q8"),
+    ("shaped-steps-inline-var", 'bot inform shaped five "Q7$user_message Q8"\nuser ask topic 0', None),
+    ("shaped-intent-then-steps", 'ask shaped\nbot inform shaped three\n  "Q7{{ 7*7 }}Q8"', "Q749Q8"),
 ]
+
+SHAPED = [n for n, _, _ in HOSTILE if n.startswith("shaped-")]
 
 BY_NAME = {n: (t, e) for n, t, e in HOSTILE}
 
